@@ -424,6 +424,59 @@ func runC18(p *an.Prog, r *an.Run, tier string) {
 	} else {
 		bad = append(bad, "ethnode.NodeURI.RemoteHost not found")
 	}
+	// the id of a parsed node URI is read from where the URL parser puts it: a bare "<id>" has it in Path, "enode://<id>"
+	// (no address part) in Host, "enode://<id>@host" in the user name — the agent reduces every invalid peer to its id
+	// through this, an empty id un-trusts and disconnects nobody
+	if idm := p.Method("ethnode", "NodeURI", "ID"); idm != nil {
+		r.Analysed(an.FuncName(idm))
+		nRet := 0
+		an.AllInstrs(idm, func(in ssa.Instruction) {
+			ret, ok := in.(*ssa.Return)
+			if !ok || len(ret.Results) == 0 {
+				return
+			}
+			nRet++
+			d := p.Derives(0, an.RetResults(ret)[0])
+			underScheme, underNoUser := false, false
+			for _, cr := range ctrlRels(ret.Block()) {
+				for _, side := range []ssa.Value{cr.L, cr.R} {
+					if fv := an.FieldOf(stripLoad(side)); fv != nil {
+						other := cr.R
+						if side == cr.R {
+							other = cr.L
+						}
+						if fv.Name() == "Scheme" && cr.Op == token.EQL {
+							if cs, isC := an.ConstString(other); isC && cs == "" {
+								underScheme = true
+							}
+						}
+						if fv.Name() == "User" && cr.Op == token.EQL && isNilValue(other) {
+							underNoUser = true
+						}
+					}
+				}
+			}
+			switch {
+			case underScheme:
+				if !d.HasFieldNamed("", "Path") {
+					bad = append(bad, "NodeURI.ID returns at "+p.Pos(ret.Pos())+" something other than Path for a bare id (no scheme)")
+				}
+			case underNoUser:
+				if !d.HasFieldNamed("", "Host") {
+					bad = append(bad, "NodeURI.ID returns at "+p.Pos(ret.Pos())+" something other than Host for \"enode://<id>\" (no user part: the parser puts the id in Host): bare ids parse to the empty string and the agent asks the node to drop \"\"")
+				}
+			default:
+				if d.CallTo(func(f *types.Func) bool { return f.Name() == "Username" }) == nil {
+					bad = append(bad, "NodeURI.ID returns at "+p.Pos(ret.Pos())+" something other than the user name for a full enode URL")
+				}
+			}
+		})
+		if nRet < 3 {
+			bad = append(bad, "NodeURI.ID does not distinguish the three spellings of a node id")
+		}
+	} else {
+		bad = append(bad, "ethnode.NodeURI.ID not found")
+	}
 	// ... and on the local side's URI carrying the address the node is actually connected to (Network.RemoteAddress),
 	// not an address the peer advertises about itself
 	if eu := p.Method("ethnode", "PeerInfo", "EnodeURI"); eu != nil {
@@ -434,6 +487,10 @@ func runC18(p *an.Prog, r *an.Run, tier string) {
 				return
 			}
 			d := p.Derives(1, an.RetResults(ret)[0])
+			// the id part is the peer's public key as EnodeID() picks it (newer nodes report a hash in the id field)
+			if p.Derives(0, an.RetResults(ret)[0]).CallTo(func(f *types.Func) bool { return an.IsMethod(f, pkgEthnode, "PeerInfo", "EnodeID") }) == nil {
+				bad = append(bad, "PeerInfo.EnodeURI ("+p.Pos(ret.Pos())+") does not take the peer's id from EnodeID(): for peers that report their key in the enode field the id field is a hash, strict mode then matches none of them against the pool's active list and drops them all")
+			}
 			if !d.HasFieldNamed("", "RemoteAddress") {
 				bad = append(bad, "PeerInfo.EnodeURI can return a URI that does not carry the connection's remote address ("+p.Pos(ret.Pos())+"): strict mode would compare an address the peer advertises, not the one it is connected from")
 			}
@@ -742,6 +799,56 @@ func checkAdapterErrors(p *an.Prog, r *an.Run) {
 		}
 	}
 	r.Floor("adapter-rpc-methods", n, 6)
+	// ... and each adapter method asks the node for what its name says: connecting / trusting reaches only "add" RPCs,
+	// disconnecting / un-trusting only "remove" RPCs (directly or through the sibling method it delegates to) — an
+	// adapter whose disconnect re-adds the peer keeps an invalid peer trusted and dialled for ever
+	for _, d := range p.Implementations(iface) {
+		if d.Obj().Pkg() == nil || !strings.HasSuffix(d.Obj().Pkg().Path(), "/ethnode") {
+			continue
+		}
+		for _, spec := range []struct {
+			name string
+			want string
+			not  string
+		}{{"ConnectPeer", "add", "remove"}, {"AddTrustedPeer", "add", "remove"}, {"DisconnectPeer", "remove", "add"}, {"RemoveTrustedPeer", "remove", "add"}} {
+			m := p.MethodOf(d, spec.name)
+			if m == nil || len(m.Blocks) == 0 || strings.HasSuffix(p.File(m.Pos()), "_test.go") {
+				continue
+			}
+			var names []string
+			seenF := map[*ssa.Function]bool{}
+			var walk func(fn *ssa.Function, depth int)
+			walk = func(fn *ssa.Function, depth int) {
+				if seenF[fn] || depth > 3 {
+					return
+				}
+				seenF[fn] = true
+				for _, c := range an.Calls(fn, false) {
+					if f := an.CallObj(c); f != nil && f.Name() == "CallContext" {
+						for _, a := range c.Common().Args {
+							if cs, ok := an.ConstString(a); ok && strings.Contains(cs, "_") {
+								names = append(names, cs)
+							}
+						}
+					}
+					if callee := c.Common().StaticCallee(); callee != nil && p.InRepo(callee) && callee.Signature.Recv() != nil && namedOf(callee.Signature.Recv().Type()) == d {
+						walk(callee, depth+1)
+					}
+				}
+			}
+			walk(m, 0)
+			var vb []string
+			for _, nm := range names {
+				low := strings.ToLower(nm)
+				if strings.Contains(low, spec.not) && !strings.Contains(low, spec.want) {
+					vb = append(vb, an.FuncName(m)+" reaches the RPC "+nm+", the opposite of what it is asked to do")
+				}
+			}
+			if len(names) > 0 {
+				r.Check(len(vb) == 0, "adapter-verbs", an.FuncName(m), m.Pos(), "reaches only "+spec.want+"-RPCs: "+strings.Join(dedup(names), ","), "%s", strings.Join(dedup(vb), "; "))
+			}
+		}
+	}
 }
 
 // bareEnodeForm: v can be "enode://" + <non-constant> with no constant address part; returns a description or "".
